@@ -409,23 +409,59 @@ def scaleTable (stoichs : List (Name × Rat)) (names : List Name) (sgn : Rat) (t
       | some x => (kv.1, kv.2 * x)
       | none => kv))
 
+/-- `zip(strict=True)` + map over two lists -/
+def zipE {α β γ} (f : α → β → Except Err γ) : List α → List β → Except Err (List γ)
+  | [], [] => .ok []
+  | a :: as, b :: bs =>
+    match f a b with
+    | .error e => .error e
+    | .ok c =>
+      match zipE f as bs with
+      | .error e => .error e
+      | .ok cs => .ok (c :: cs)
+  | _, _ => .error (.valueError "zip")
+
+/-- compute something from the second entry, then combine it with the first -/
+def bindRow {α β γ δ} (g : β → Except Err γ) (h : α → γ → Except Err δ) (r : α) (s : β) : Except Err δ :=
+  match g s with
+  | .error e => .error e
+  | .ok st => h r st
+
+/-- one row of `v.loc[:, k] *= [sgn * c[k] for c in coefs]` over the selected names: the flux row times that row's
+    own coefficients -/
+def scaleRowWith (names : List Name) (sgn : Rat) (r : Rat × Row) (st : List (Name × Rat)) :
+    Except Err (Rat × Row) :=
+  match scaleTable st names sgn [r] with
+  | .error e => .error e
+  | .ok [r'] => .ok r'
+  | .ok _ => .error (.other "unreachable")
+
+/-- one segment of the scaled branch, after `update_parameters(p)`: FIRST the coefficients at every RAW row's own state
+    and time (`[get_stoichiometries_of_variable(variable, variables=row, time=t) for t, row in res.iterrows()]`),
+    THEN `for k in names: v.loc[:, k] *= [...]` — with no name selected nothing is assigned (and no length is
+    compared), otherwise a column of another length than the frame is pandas' ValueError -/
+def scaleSegRows (c1 : Content) (v : Name) (names : List Name) (sgn : Rat) (fl raw : Table) :
+    Except Err Table :=
+  match mapE (fun (s : Rat × Row) => stoichOfVarAt c1 v (some s.2) s.1) raw with
+  | .error e => .error e
+  | .ok sts => if names.isEmpty then .ok fl else zipE (scaleRowWith names sgn) fl sts
+
+/-- the scaled branch: `for v, res, p in zip(fluxes, self.raw_variables, self.raw_parameters, strict=True)`:
+    `update_parameters(p)` on the shared model (threaded from segment to segment), then `scaleSegRows` -/
 def scaleLoop (v : Name) (names : List Name) (sgn : Rat) :
-    Content → List Table → List Pars → Except Err (List Table × Content)
-  | c, [], [] => .ok ([], c)
-  | c, t :: ts, p :: ps =>
+    Content → List Table → List Table → List Pars → Except Err (List Table × Content)
+  | c, [], [], [] => .ok ([], c)
+  | c, t :: ts, raw :: raws, p :: ps =>
     match withPars c p with
     | .error e => .error e
     | .ok c1 =>
-      match stoichOfVar c1 v with
+      match scaleSegRows c1 v names sgn t raw with
       | .error e => .error e
-      | .ok st =>
-        match scaleTable st names sgn t with
+      | .ok t' =>
+        match scaleLoop v names sgn c1 ts raws ps with
         | .error e => .error e
-        | .ok t' =>
-          match scaleLoop v names sgn c1 ts ps with
-          | .error e => .error e
-          | .ok (rest, c2) => .ok (t' :: rest, c2)
-  | _, _, _ => .error (.valueError "zip")
+        | .ok (rest, c2) => .ok (t' :: rest, c2)
+  | _, _, _, _ => .error (.valueError "zip")
 
 /-- names picked by `get_producers` (`prod = true`: `v > 0`) / `get_consumers` (`v < 0`) -/
 def pickNames (prod : Bool) (st : List (Name × Rat)) : List Name :=
@@ -451,7 +487,7 @@ def getProdConsV (res : Res) (prod : Bool) (v : Name) (scaled : Bool) (n : Norm)
           match mapE (selectTable names) tabs with
           | .error e => .error e
           | .ok sel =>
-            match (if scaled then scaleLoop v names (if prod then 1 else -1) st1.model sel res.rawPars
+            match (if scaled then scaleLoop v names (if prod then 1 else -1) st1.model sel res.rawVars res.rawPars
                    else .ok (sel, st1.model)) with
             | .error e => .error e
             | .ok (out, _) =>
